@@ -568,6 +568,11 @@ func psiParseOracle(bs []byte, obs Tok, strict bool) string {
 		return ""
 	}
 	if obs.At(0).Int() != 0 {
+		if info.typedDesc {
+			// the reference decoder keeps typed descriptor bodies opaque; a body that is inconsistent in
+			// itself (possible only in a mutated section) is rejected by the descriptor parsers: C14's subject
+			return ""
+		}
 		return "parsePSIData rejects a unit the reference decoder accepts"
 	}
 	var got astits.PSIData
